@@ -105,28 +105,22 @@ fn op_line(op: &LOp) -> String {
     }
 }
 
-fn run_case(ctx: &mut Ctx, scn: &Scn, tag: &str) {
-    let built = match build(scn) { Ok(b) => b, Err(e) => { ctx.count(&format!("invalid-tx.{}", e.split(|c: char| !c.is_alphanumeric()).filter(|w| !w.is_empty()).take(2).collect::<Vec<_>>().join("-"))); return; } };
-    let base = *scn.params.base_asset_id();
-    let mut watch: Vec<AssetId> = (0..4).map(|i| asset(i, &base)).collect();
-    for c in 0..3 { for s in 0..2 { watch.push(contract_id(c).asset_id(&sub_id(s))); } }
-    let cids: Vec<ContractId> = scn.contracts.iter().filter(|c| c.as_input).map(|c| c.id).collect();
-    let storage0 = built.storage.clone();
-    let mut vm = new_vm(scn, built.storage.clone());
-    let max_fee = built.max_fee;
-    let ready = built.ready;
+struct Stepped { world: Option<World>, steps: Vec<StepRec>, first: Option<Snap>, last: Option<Snap>, end: RunEnd }
+
+/// single-steps one transaction on `vm`, with full ledger snapshots around every asset op
+fn stepped(vm: &mut Vm, ready: fuel_vm::checked_transaction::Ready<fuel_tx::Script>, base: AssetId, watch: &[AssetId], cids: &[ContractId]) -> Stepped {
     let mut world: Option<World> = None;
     let mut steps: Vec<StepRec> = vec![];
     let mut pending: Option<StepRec> = None;
     let mut first: Option<Snap> = None;
     let mut last: Option<Snap> = None;
-    let res = ctx.guard(|| run_stepped(&mut vm, ready, 20_000, |vm, stop| {
+    let end = run_stepped(vm, ready, 20_000, |vm, stop| {
         if world.is_none() {
             let ib = vm.initial_balances();
             let mut table: Vec<AssetId> = ib.non_retryable.keys().cloned().collect();
             if ib.retryable.is_some() && !table.contains(&base) { table.push(base); }
             table.sort();
-            world = Some(World { base, watch: watch.clone(), cids: cids.clone(), table });
+            world = Some(World { base, watch: watch.to_vec(), cids: cids.to_vec(), table });
         }
         let w = world.as_ref().unwrap();
         // full snapshots only around asset ops (other instructions cannot move assets); cheap fields always fresh
@@ -153,8 +147,62 @@ fn run_case(ctx: &mut Ctx, scn: &Scn, tag: &str) {
             pending = Some(StepRec { pc: reg(vm, RegId::PC), mn, op, before: s.clone(), after: None });
         }
         last = Some(s);
-    }));
-    let end = match res { Ok(e) => e, Err(m) => { ctx.oracle_fail("panic-vm-run", tag, &m); return; } };
+    });
+    Stepped { world, steps, first, last, end }
+}
+
+/// what a run looks like from the ledger's point of view: per asset op its pc and the full snapshots around it, then the outputs
+fn ledger_trace(r: &Stepped, vm: &Vm) -> Vec<String> {
+    let Some(w) = &r.world else { return vec![] };
+    let mut t: Vec<String> = vec![format!("steps {}", r.steps.len())];
+    for s in &r.steps { if s.op.is_some() { t.push(format!("pc {} {} | {} | {}", s.pc, s.mn, snap_str(&s.before, w), s.after.as_ref().map(|a| snap_str(a, w)).unwrap_or_default())); } }
+    if let Some(l) = &r.last { t.push(format!("end {}", snap_str(l, w))); }
+    t.push(format!("outputs {:?}", vm.transaction().outputs()));
+    t.push(format!("receipts {}", vm.receipts().len()));
+    t
+}
+
+fn run_case(ctx: &mut Ctx, scn: &Scn, tag: &str) { run_case_on(ctx, scn, tag, None) }
+
+/// `dirt`: transactions run first on the SAME interpreter; the measured transaction then gets the whole oracle and the model
+/// (which starts every transaction from the initial ledger state), and its per-op ledger trace must equal the one of a fresh
+/// interpreter over a copy of the storage
+fn run_case_on(ctx: &mut Ctx, scn: &Scn, tag: &str, dirt: Option<&[(Scn, u64)]>) {
+    let built = match build(scn) { Ok(b) => b, Err(e) => { ctx.count(&format!("invalid-tx.{}", e.split(|c: char| !c.is_alphanumeric()).filter(|w| !w.is_empty()).take(2).collect::<Vec<_>>().join("-"))); return; } };
+    let base = *scn.params.base_asset_id();
+    let mut watch: Vec<AssetId> = (0..4).map(|i| asset(i, &base)).collect();
+    for c in 0..3 { for s in 0..2 { watch.push(contract_id(c).asset_id(&sub_id(s))); } }
+    let cids: Vec<ContractId> = scn.contracts.iter().filter(|c| c.as_input).map(|c| c.id).collect();
+    let mut storage = built.storage.clone();
+    if dirt.is_some() { install_dirt_contracts(&mut storage, &base); }
+    let mut vm = new_vm(scn, storage);
+    let mut fresh: Option<Vec<String>> = None;
+    if let Some(d) = dirt {
+        let (ran, in_call) = dirty_vm(&mut vm, d);
+        ctx.count_n("reuse.dirtying-transactions", ran as u64);
+        ctx.count_n("reuse.dirtying-ended-inside-call", in_call as u64);
+    }
+    // the storage the measured transaction starts from
+    let storage0: MemoryStorage = { let st: &MemoryStorage = vm.as_ref(); st.clone() };
+    if dirt.is_some() {
+        let mut fvm = new_vm(scn, storage0.clone());
+        let rd = built.ready.clone();
+        match ctx.guard(|| { let r = stepped(&mut fvm, rd, base, &watch, &cids); ledger_trace(&r, &fvm) }) { Ok(t) => fresh = Some(t), Err(m) => { ctx.oracle_fail("panic-vm-run", &format!("{tag} (fresh copy)"), &m); return; } }
+    }
+    let max_fee = built.max_fee;
+    let ready = built.ready;
+    let res = ctx.guard(|| stepped(&mut vm, ready, base, &watch, &cids));
+    let run = match res { Ok(r) => r, Err(m) => { ctx.oracle_fail("panic-vm-run", tag, &m); return; } };
+    if let Some(ft) = &fresh {
+        let mine = ledger_trace(&run, &vm);
+        if *ft != mine {
+            let k = ft.iter().zip(mine.iter()).position(|(a, b)| a != b).unwrap_or(ft.len().min(mine.len()));
+            ctx.oracle_fail("reused-client-ledger-differs-from-fresh", tag, &format!("first difference at entry {k}: reused `{}` fresh `{}`",
+                mine.get(k).map(|x| x.chars().take(300).collect::<String>()).unwrap_or_default(), ft.get(k).map(|x| x.chars().take(300).collect::<String>()).unwrap_or_default()));
+        }
+        ctx.count("reuse.compared-with-fresh");
+    }
+    let Stepped { world, steps, first, last, end } = run;
     if let Err(e) = &end.state { if e == "step-limit" { ctx.count("step-limit"); return; } ctx.oracle_fail(&format!("vm-error-{}", e.split(|c: char| !c.is_alphanumeric()).next().unwrap_or("x")), tag, &e.chars().take(160).collect::<String>()); return; }
     let w = match world { Some(w) => w, None => { ctx.count("no-steps"); return; } };
     let first = first.unwrap();
@@ -172,7 +220,7 @@ fn run_case(ctx: &mut Ctx, scn: &Scn, tag: &str) {
         hexs(w.watch.iter().map(|a| hex(a.as_ref())).collect()),
         hexs(ib.non_retryable.iter().map(|(a, v)| format!("{}:{}", hex(a.as_ref()), v)).collect()),
         ib.retryable.as_ref().map(|r| **r).unwrap_or(0),
-        hexs(scn.contracts.iter().flat_map(|c| c.balances.iter().map(move |(a, v)| format!("{}/{}:{}", hex(c.id.as_ref()), hex(a.as_ref()), v))).collect()),
+        hexs(scn.contracts.iter().flat_map(|c| { let st = &storage0; w.watch.iter().filter_map(move |a| st.contract_asset_id_balance(&c.id, a).ok().flatten().map(|v| format!("{}/{}:{}", hex(c.id.as_ref()), hex(a.as_ref()), v))) }).collect()),
         first.vars.len());
     ctx.emit(&init, &format!("ok {}", snap_str(&first, &w)));
     // ---- op lines ----
@@ -310,5 +358,12 @@ pub fn run(ctx: &mut Ctx) {
         let mut scn = gen_scenario(&mut ctx.rng, Focus::Ledger, costs);
         if ctx.rng.chance(4, 5) { scn.gas_limit = scn.gas_limit.max(ctx.rng.range(100_000, 2_000_000)); }
         run_case(ctx, &scn, &format!("case={case}"));
+        // the same program as a later transaction of a reused interpreter (balances moved, frames left by aborts inside
+        // calls, other contract inputs / outputs, warmed slot cache, large heap)
+        if ctx.rng.chance(2, 5) {
+            let dirt = dirty_scenarios(&mut ctx.rng, &scn);
+            run_case_on(ctx, &scn, &format!("case={case}.reused"), Some(&dirt));
+            ctx.count("reuse.cases");
+        }
     }
 }
